@@ -4,9 +4,9 @@ From RecordUpdate Require Import RecordSet.
 Import RecordSetNotations.
 
 Section Reach.
-  Variables (f4 f14 : bool) (ls : list label).
-  Let s := run (rinit f4 f14) ls.
-  Let I : SInv s := reachable_sinv f4 f14 ls.
+  Variables (f4 f14 f15 : bool) (ls : list label).
+  Let s := run (rinit f4 f14 f15) ls.
+  Let I : SInv s := reachable_sinv f4 f14 f15 ls.
 
   (** Running() closed => every handler registered when Run's RunHandlers took the lock
       ([run_n] of them) has been subscribed - exactly once - and started *)
@@ -87,14 +87,14 @@ Qed.
 (** D4 repaired: once Started() is closed, stopFn and stopped are assigned; a Stop called after
     Started() was observed returns normally; Stopped() is non-nil and closes only when the
     handler goroutine is done *)
-Lemma started_implies_stoppable f14 ls :
-  let s := run (rinit true f14) ls in
+Lemma started_implies_stoppable f14 f15 ls :
+  let s := run (rinit true f14 f15) ls in
   (forall h, h_startedCh (hs s h) = true ->
              h_started (hs s h) = true /\ h_stopFn (hs s h) = true /\ h_stoppedSet (hs s h) = true)
   /\ (forall t h r, thr s t = TStopDone h true r -> r = StopOk)
   /\ (forall h, h_stoppedCh (hs s h) = true <-> h_loop (hs s h) = LDone).
 Proof.
-  intros s. pose proof (reachable_sinv true f14 ls) as I. fold s in I.
+  intros s. pose proof (reachable_sinv true f14 f15 ls) as I. fold s in I.
   assert (F : fix4 s = true) by (subst s; now rewrite fix4_run).
   repeat split.
   - destruct (i_hrec _ I h). auto.
@@ -161,7 +161,7 @@ Qed.
     handler's context is done, or by handleClose once the ROUTER is closing *)
 Lemma sub_closed_only_by s l s' evs h :
   step s l = Some (s', evs) -> h < nexth s -> h_subOpen (hs s h) = true -> h_subOpen (hs s' h) = false ->
-  l = LSubEnd h \/ (l = LSubCtx h /\ hctx_done s h = true) \/ (l = LHC h true /\ closingCh s = true).
+  l = LSubEnd h \/ (l = LSubCtx h /\ hctx_done s h = true) \/ (exists b, l = LHC h b /\ closingCh s = true).
 Proof.
   intros X Hlt P0 P1.
   destruct l; unfold step in X; destr X; injection X as <- _; subst;
@@ -172,7 +172,7 @@ Proof.
     try (match goal with H : context [upd _ ?k _ h] |- _ => destruct (Nat.eq_dec h k) as [->|?];
            [rewrite ?upd_same in *|rewrite ?upd_other in * by assumption] end; simpl in *; try congruence).
   all: try lia.
-  all: bools; auto.
+  all: bools; eauto 6.
 Qed.
 
 (** the loop of a running handler whose subscription is open always accepts the next message *)
@@ -181,12 +181,12 @@ Proof. intros E1 E2. simpl. rewrite E1, E2. discriminate. Qed.
 
 (** the WaitGroup part of self-close: once every added handler's goroutine has passed
     handlersWg.Done() the counter is zero and a watcher blocked in Wait() can continue *)
-Lemma all_ended_wg_zero f4 f14 ls :
-  let s := run (rinit f4 f14) ls in
+Lemma all_ended_wg_zero f4 f14 f15 ls :
+  let s := run (rinit f4 f14 f15) ls in
   (forall h, h < nexth s -> pend (h_loop (hs s h)) = false) ->
   hwg s = 0 /\ (wat s = WWait -> step s (LWatch CStep) <> None).
 Proof.
-  intros s A. pose proof (reachable_sinv f4 f14 ls) as I. fold s in I.
+  intros s A. pose proof (reachable_sinv f4 f14 f15 ls) as I. fold s in I.
   assert (Z : hwg s = 0). { rewrite (i_cnt _ I). apply cnt_zero. exact A. }
   split; [exact Z|]. intros W. simpl. rewrite W, Z. discriminate.
 Qed.
